@@ -60,8 +60,14 @@ impl Stub {
     fn token(&mut self) -> Vec<u8> {
         self.next += 1;
         let mut t = format!("TOK#{}#", self.next).into_bytes();
+        let pick = (self.next as usize * 7 + self.salt as usize) % 14;
+        // two in fourteen: a DER-encoded ECDSA signature (what non-COSE signers return) whose r
+        // carries the marker
+        if pick >= 12 {
+            return crate::common::der_ecdsa_sig(&t, if pick == 12 { 32 } else { 48 });
+        }
         let sizes = [0usize, 0, 0, 0, 8, 16, 32, 48, 64, 66, 96, 132];
-        let n = sizes[(self.next as usize * 7 + self.salt as usize) % sizes.len()];
+        let n = sizes[pick];
         while t.len() < n {
             t.push((t.len() as u8).wrapping_mul(41));
         }
